@@ -13,7 +13,7 @@ from mpilot.libraries.eems.exceptions import (
     DuplicateRawValues,
 )
 from mpilot.libraries.eems.mixins import SameArrayShapeMixin
-from mpilot.utils import insure_fuzzy
+from mpilot.utils import insure_fuzzy, make_masked
 
 
 class Copy(Command):
@@ -327,7 +327,7 @@ class NormalizeCurve(Command):
     output = params.DataParameter()
 
     def execute(self, **kwargs):
-        arr = kwargs["InFieldName"].result
+        arr = make_masked(kwargs["InFieldName"].result)
         raw_values = kwargs["RawValues"]
         normal_values = kwargs["NormalValues"]
 
@@ -380,7 +380,7 @@ class NormalizeMeanToMid(NormalizeCurve):
     output = params.DataParameter()
 
     def execute(self, **kwargs):
-        arr = kwargs["InFieldName"].result
+        arr = make_masked(kwargs["InFieldName"].result)
         ignore_zeros = kwargs["IgnoreZeros"]
 
         low_value = arr.min()
@@ -425,7 +425,7 @@ class NormalizeCurveZScore(Command):
     output = params.DataParameter()
 
     def execute(self, **kwargs):
-        arr = kwargs["InFieldName"].result
+        arr = make_masked(kwargs["InFieldName"].result)
         z_score_values = kwargs["ZScoreValues"]
         normal_values = kwargs["NormalValues"]
 
